@@ -7,11 +7,11 @@
 // order fixed, rounding not modelled).  Nothing is assumed about +,-,*,/,ln beyond "equal terms are equal".
 //
 // Representation: a complete binary tree of depth Q_DEPTH in heap layout (node i has children 2i+1, 2i+2); a node is
-// (op, val); op 0 = empty.  Leaves: INT(v) (data values, conversions from integers, zero/one/two) and SYM(k) (named
+// (op, val) packed into one u32 (op << 16 | val as u16); 0 = empty.  Leaves: INT(v) (data values, conversions from integers, zero/one/two) and SYM(k) (named
 // unknown non-negative constants such as alpha).  Building a term deeper than Q_DEPTH sets `ovf` (harnesses assert !ovf).
 // Comparisons: INT leaves compare by value; SYM(k) is greater than every INT and ordered by k (alpha < 0 is false);
 // anything else is incomparable (partial_cmp = None) and equal only if structurally identical.
-const Q_DEPTH: usize = 6;
+// Q_DEPTH is defined by the including module (5 for the count-based variants, 6 for the Gaussian moments).
 const Q_NODES: usize = (1 << Q_DEPTH) - 1;
 
 const OP_NONE: u8 = 0;
@@ -29,18 +29,20 @@ const OP_POWF: u8 = 11;
 const OP_SQRT: u8 = 12;
 const OP_OTHER: u8 = 13; // any other function: val = function id
 
-#[derive(Clone, Copy, PartialEq)]
+#[derive(Clone, Copy)]
 pub(crate) struct Q {
-    op: [u8; Q_NODES],
-    val: [i32; Q_NODES],
+    node: [u32; Q_NODES],
     ovf: bool,
+}
+
+const fn q_pack(op: u8, v: i32) -> u32 {
+    ((op as u32) << 16) | ((v as i16) as u16 as u32)
 }
 
 impl Q {
     fn leaf(op: u8, v: i32) -> Q {
-        let mut q = Q { op: [OP_NONE; Q_NODES], val: [0; Q_NODES], ovf: false };
-        q.op[0] = op;
-        q.val[0] = v;
+        let mut q = Q { node: [0u32; Q_NODES], ovf: false };
+        q.node[0] = q_pack(op, v);
         q
     }
     pub(crate) fn int(v: i32) -> Q {
@@ -49,8 +51,14 @@ impl Q {
     pub(crate) fn sym(k: i32) -> Q {
         Q::leaf(OP_SYM, k)
     }
+    fn op0(&self) -> u8 {
+        (self.node[0] >> 16) as u8
+    }
+    fn val0(&self) -> i32 {
+        (self.node[0] as u16) as i16 as i32
+    }
     pub(crate) fn is_int(&self) -> bool {
-        self.op[0] == OP_INT
+        self.op0() == OP_INT
     }
     pub(crate) fn overflowed(&self) -> bool {
         self.ovf
@@ -65,8 +73,7 @@ impl Q {
             let dst_first = (2 * width - 1) + (root - 1) * width;
             let mut k = 0;
             while k < width {
-                self.op[dst_first + k] = src.op[src_first + k];
-                self.val[dst_first + k] = src.val[src_first + k];
+                self.node[dst_first + k] = src.node[src_first + k];
                 k += 1;
             }
             l += 1;
@@ -75,7 +82,7 @@ impl Q {
         let last_first = (1usize << (Q_DEPTH - 1)) - 1;
         let mut k = last_first;
         while k < Q_NODES {
-            if src.op[k] != OP_NONE {
+            if src.node[k] != 0 {
                 self.ovf = true;
             }
             k += 1;
@@ -118,6 +125,21 @@ impl Q {
     }
 }
 
+// structural equality, written as an explicit loop (the derived array comparison is a memcmp over bytes: a longer unwinding)
+impl PartialEq for Q {
+    fn eq(&self, o: &Q) -> bool {
+        let mut e = self.ovf == o.ovf;
+        let mut i = 0;
+        while i < Q_NODES {
+            if self.node[i] != o.node[i] {
+                e = false;
+            }
+            i += 1;
+        }
+        e
+    }
+}
+
 impl std::fmt::Debug for Q {
     fn fmt(&self, f: &mut std::fmt::Formatter<'_>) -> std::fmt::Result {
         f.write_str("Q")
@@ -131,15 +153,15 @@ impl std::fmt::Display for Q {
 
 impl PartialOrd for Q {
     fn partial_cmp(&self, o: &Q) -> Option<std::cmp::Ordering> {
-        let (a, b) = (self.op[0], o.op[0]);
+        let (a, b) = (self.op0(), o.op0());
         if a == OP_INT && b == OP_INT {
-            self.val[0].partial_cmp(&o.val[0])
+            self.val0().partial_cmp(&o.val0())
         } else if a == OP_SYM && b == OP_INT {
             Some(std::cmp::Ordering::Greater)
         } else if a == OP_INT && b == OP_SYM {
             Some(std::cmp::Ordering::Less)
         } else if a == OP_SYM && b == OP_SYM {
-            self.val[0].partial_cmp(&o.val[0])
+            self.val0().partial_cmp(&o.val0())
         } else if *self == *o {
             Some(std::cmp::Ordering::Equal)
         } else {
@@ -202,7 +224,7 @@ impl num_traits::Zero for Q {
         Q::int(0)
     }
     fn is_zero(&self) -> bool {
-        self.op[0] == OP_INT && self.val[0] == 0
+        self.op0() == OP_INT && self.val0() == 0
     }
 }
 impl num_traits::One for Q {
@@ -218,15 +240,15 @@ impl num_traits::Num for Q {
 }
 impl num_traits::ToPrimitive for Q {
     fn to_i64(&self) -> Option<i64> {
-        if self.op[0] == OP_INT {
-            Some(self.val[0] as i64)
+        if self.op0() == OP_INT {
+            Some(self.val0() as i64)
         } else {
             None
         }
     }
     fn to_u64(&self) -> Option<u64> {
-        if self.op[0] == OP_INT && self.val[0] >= 0 {
-            Some(self.val[0] as u64)
+        if self.op0() == OP_INT && self.val0() >= 0 {
+            Some(self.val0() as u64)
         } else {
             None
         }
@@ -256,7 +278,7 @@ macro_rules! q_un {
     ($($m:ident => $id:expr),*) => { $(fn $m(self) -> Q { Q::other($id, self) })* };
 }
 macro_rules! q_bin {
-    ($($m:ident => $id:expr),*) => { $(fn $m(self, o: Q) -> Q { let mut q = Q::bin(OP_OTHER, self, o); q.val[0] = $id; q })* };
+    ($($m:ident => $id:expr),*) => { $(fn $m(self, o: Q) -> Q { let mut q = Q::bin(OP_OTHER, self, o); q.node[0] = q_pack(OP_OTHER, $id); q })* };
 }
 impl num_traits::Float for Q {
     q_const!(nan => 100, infinity => 101, neg_infinity => 102, neg_zero => 103, min_value => 104, min_positive_value => 105,
@@ -278,28 +300,28 @@ impl num_traits::Float for Q {
     }
     // data values and counts are integers: floor/ceil/round/trunc of an INT leaf is the leaf itself
     fn floor(self) -> Q {
-        if self.op[0] == OP_INT {
+        if self.op0() == OP_INT {
             self
         } else {
             Q::other(1, self)
         }
     }
     fn ceil(self) -> Q {
-        if self.op[0] == OP_INT {
+        if self.op0() == OP_INT {
             self
         } else {
             Q::other(2, self)
         }
     }
     fn round(self) -> Q {
-        if self.op[0] == OP_INT {
+        if self.op0() == OP_INT {
             self
         } else {
             Q::other(3, self)
         }
     }
     fn trunc(self) -> Q {
-        if self.op[0] == OP_INT {
+        if self.op0() == OP_INT {
             self
         } else {
             Q::other(4, self)
@@ -310,10 +332,10 @@ impl num_traits::Float for Q {
           asinh => 24, acosh => 25, atanh => 26);
     q_bin!(log => 40, max => 41, min => 42, abs_sub => 43, hypot => 44, atan2 => 45);
     fn is_sign_positive(self) -> bool {
-        !(self.op[0] == OP_INT && self.val[0] < 0)
+        !(self.op0() == OP_INT && self.val0() < 0)
     }
     fn is_sign_negative(self) -> bool {
-        self.op[0] == OP_INT && self.val[0] < 0
+        self.op0() == OP_INT && self.val0() < 0
     }
     fn mul_add(self, a: Q, b: Q) -> Q {
         Q::bin(OP_ADD, Q::bin(OP_MUL, self, a), b)
@@ -343,7 +365,7 @@ impl num_traits::Float for Q {
 impl crate::math::num::RealNumber for Q {
     fn copysign(self, sign: Q) -> Q {
         let mut q = Q::bin(OP_OTHER, self, sign);
-        q.val[0] = 46;
+        q.node[0] = q_pack(OP_OTHER, 46);
         q
     }
     fn ln_1pe(self) -> Q {
@@ -362,6 +384,6 @@ impl crate::math::num::RealNumber for Q {
         Q::sym(109)
     }
     fn to_f32_bits(self) -> u32 {
-        self.val[0] as u32
+        self.val0() as u32
     }
 }
